@@ -390,3 +390,86 @@ for _farm in ((4, 12), (2, 9), (6, 8)):
                    statement='claim(until_epoch = k) followed by claim() pays the same total as a single claim(), for every split epoch k and every position of a second snapshot',
                    bounds='current epoch 10; claim cursor %s; farm epochs [%d,%d)' % (_last, _farm[0], _farm[1]), covers=['ok'],
                    replay=_replay_family(_last, _farm, two_claims=True), opts={'max_paths': 60000})(_ob_schedule_family(_last, _farm))
+
+
+# ---------------------------------------------------------------- a user with positions in two LP tokens (the claim cursor is per user, not per LP)
+
+def _ob_two_lps(last_a, s2):
+    def s(I):
+        sc = Scn(I, alice_second=None, last_a=last_a)
+        b = sc.b
+        # alice is among the first stakers of LP2: the contract's first-ever LP2 snapshot is at epoch s2 (after her claim cursor)
+        wc = I.sym('w_lp2', lo=1, hi=U128 // 64)
+        oth2 = I.sym('others_lp2', lo=0, hi=U128 // 64)
+        pc = I.sym('pos_c', lo=1, hi=U128 // 64)
+        put_position(I, position('u-c', LP2, pc, DAY, 'alice', None))
+        # ... and a second LP1 position whose identifier sorts AFTER the LP2 one: her positions interleave the two LP tokens
+        # (u-a: LP1, u-c: LP2, u-d: LP1); her LP1 weight `wa` covers both LP1 positions
+        pd = I.sym('pos_d', lo=1, hi=U128 // 64)
+        put_position(I, position('u-d', LP1, pd, DAY, 'alice', None))
+        put_weight(I, 'alice', LP2, s2, wc)
+        put_weight(I, FM, LP2, s2, simp(wc + oth2))
+        rate2 = I.sym('rate2', lo=1, hi=U128 // 64)
+        c2 = I.sym('claimed0_2', hi=U128)
+        funded2 = simp(rate2 * 8)
+        I.assume(c2 <= funded2)
+        put_farm(I, farm('f-2', 'fowner', LP2, 'uom', funded2, c2, rate2, 4, 12))
+        bal2 = I.sym('fm_reward_balance_2', hi=U128)
+        I.assume(bal2 >= funded2 - c2)
+        b.set(FM, 'uom', bal2)
+        pre = b.snapshot()
+        exp1, _ = sc.expected('alice', E)
+        exp2, _ = expected_reward(I, rate2, 4, 12, [(s2, wc)], [(s2, simp(wc + oth2))], sc.first['alice'], E)
+        qs, qr = sc.query_rewards('alice', None)
+        st, resp = sc.claim('alice', None)
+        if st != 'ok':
+            I.outcome('rejected')
+            I.check('claim_refused_only_if_a_farm_is_exhausted',
+                    smt.Or(exp1 + sc.farms[0]['claimed0'] > sc.farms[0]['funded'], exp2 + c2 > funded2))
+            return
+        I.cover('ok', dict(HINT, w_lp2=10 ** 6, others_lp2=10 ** 6, pos_c=10 ** 6, pos_d=10 ** 6, claimed0_2=0, fm_reward_balance_2=10 ** 9))
+        I.observe('status', 'ok')
+        I.observe('bal:alice:uusd', b.get('alice', 'uusd'))
+        I.observe('bal:alice:uom', b.get('alice', 'uom'))
+        I.observe('last:alice', last_claimed_of(I, 'alice'))
+        I.check('first_lp_pays_sum_of_epoch_shares', smt.Eq(b.get('alice', 'uusd') - pre.get('alice', 'uusd'), exp1))
+        I.check('second_lp_pays_sum_of_epoch_shares', smt.Eq(b.get('alice', 'uom') - pre.get('alice', 'uom'), exp2))
+        I.check('query_equals_claim_per_denom', qs == 'ok' and smt.And(smt.Eq(coins_total(qr.get('total_rewards'), 'uusd'), exp1),
+                                                                         smt.Eq(coins_total(qr.get('total_rewards'), 'uom'), exp2)))
+        I.check('farm_books_exactly_the_payment', smt.And(smt.Eq(get_farm(I, 'f-1').get('claimed_amount'), sc.farms[0]['claimed0'] + exp1),
+                                                          smt.Eq(get_farm(I, 'f-2').get('claimed_amount'), c2 + exp2)))
+    return s
+
+
+def _replay_two_lps(last_a, s2):
+    from .pm import generic_replay
+
+    def build(m):
+        af = last_a if last_a is not None else 3
+        a_snaps = [(af, m['wa'])]
+        b_snaps = [(6, m['wb'])]
+        events = sorted(set([af, 6]))
+        t_snaps = [(e, m['others'] + carry(a_snaps, e) + carry(b_snaps, e)) for e in events]
+        weights = [('alice', LP1, e, w) for e, w in a_snaps] + [('bob', LP1, e, w) for e, w in b_snaps] + [('farm_manager', LP1, e, w) for e, w in t_snaps]
+        weights += [('alice', LP2, s2, m['w_lp2']), ('farm_manager', LP2, s2, m['w_lp2'] + m['others_lp2'])]
+        fl = [('f-1', 'fowner', LP1, 'uusd', m['rate'] * 8, m['claimed0'], m['rate'], 4, 12),
+              ('f-2', 'fowner', LP2, 'uom', m['rate2'] * 8, m['claimed0_2'], m['rate2'], 4, 12)]
+        lc = [('alice', last_a)] if last_a is not None else []
+        steps = fm_state_steps(None, positions=[('u-a', LP1, m['pos_a'], DAY, 'alice', None), ('u-b', LP1, m['pos_b'], DAY, 'bob', None),
+                                                ('u-c', LP2, m['pos_c'], DAY, 'alice', None), ('u-d', LP1, m['pos_d'], DAY, 'alice', None)],
+                               farms=fl, weights=weights, last_claimed=lc, now_s=E * DAY + 5,
+                               mints=[('farm_manager', [('uusd', m['fm_reward_balance']), ('uom', m['fm_reward_balance_2']), (LP1, m['pos_a'] + m['pos_b'] + m['pos_d']),
+                                                        (LP2, m['pos_c'])])])
+        steps.append({'op': 'execute', 'contract': 'farm_manager', 'sender': 'alice', 'funds': [], 'msg': {'claim': {'until_epoch': None}}})
+        sc = {'setup': {'time_nanos': '0', 'epoch': {'genesis': '0', 'duration': str(DAY)}, 'farm': {'max_concurrent_farms': 2}}, 'steps': steps}
+        return sc, len(steps) - 1
+    return generic_replay(build)
+
+
+for _pid, _pre, _last, _s2 in [('C07', 'L5', l, s_) for l, s_ in ((5, 9), (5, 6), (5, 5), (None, 8), (7, 10), (3, 11))] + [('C06', 'B3', 5, 9), ('C06', 'B3', None, 8)]:
+    obligation(_pid, '%s.two_lp_tokens_last%s_second_lp_from%s' % (_pre, _last, _s2),
+               entries=['execute', 'claim', 'calculate_rewards', 'compute_start_from_epoch_for_address', 'compute_address_weights', 'compute_contract_weights'],
+               kind='S', statement='a user with open positions in two LP tokens whose identifiers interleave the tokens (the claim cursor is per user): the claim pays, for EACH LP token, exactly once, the sum of the epoch shares '
+                                   'of its farm from the cursor on -- also when the second LP token was first staked by anyone only after the user last claimed',
+               bounds='current epoch 10; LP1 as in L3 with cursor %s; the first-ever snapshot of LP2 (user and total) at epoch %s; one farm per LP token over [4,12); '
+                      'weights, rates, budgets symbolic' % (_last, _s2), covers=['ok'], replay=_replay_two_lps(_last, _s2))(_ob_two_lps(_last, _s2))
